@@ -42,6 +42,10 @@ def handle (tb : Tables) (c impl : T) : String :=
       if impl == cur then
         (if specOk then "ok" else if attr.isEmpty then "unattributed " ++ cur.render else "dev " ++ ",".intercalate attr)
       else verdict impl cur alts specOk
+  | .node "c14api" [_] =>
+    -- a failing AddTypes call on a loaded root (fixed table): the model is the property itself — nothing observable
+    -- changes and a later valid load behaves as on a root that never saw the call
+    if impl == T.node "obs" [T.ofBool true] then "ok" else "mismatch spec-bad (obs true)"
   | _ => "bad-op"
 
 def flags (tb : Tables) : List (String × Bool) :=
